@@ -1,41 +1,116 @@
 ------------------------------ MODULE FactsTrace ------------------------------
 (***************************************************************************)
-(* Stateless facts recorded from the implementation and judged by the      *)
-(* specification's operators, one event at a time (binding B2 for pure     *)
-(* functions):                                                             *)
-(*   rc{k,x,rc,txt}      rev_comp(x,k) and numeric_to_kmer(x,k)/to_acgt    *)
-(*                       for sampled codes, k <= 31 (32-digit words)       *)
-(*   header{k,cols}      column names (letter bytes) of a header line      *)
+(* Stateless facts recorded from the implementation (Rust library, CLI,    *)
+(* Python binding) and judged one event at a time by the specification's   *)
+(* declarative operators (binding B2/B4 for per-record functions).         *)
+(*                                                                         *)
+(*   rc{k,x,rc,txt}        rev_comp(x,k), numeric_to_kmer(x,k)/to_acgt;    *)
+(*                         32-digit words, k <= 31                         *)
+(*   header{k,cols}        column names (letter bytes) of a header         *)
+(*   orec{k,norm,bytes,ncols,row,same}                                      *)
+(*                         one oligo row: sparse <<col,val,...>>; val is   *)
+(*                         the count, or value*10^6 when norm = 1;         *)
+(*                         same = 1: must equal the previous event's row   *)
+(*   cgr{bytes,err,npts,nexact,pts,tops}                                    *)
+(*                         whole-sequence CGR: err = 1 iff the call        *)
+(*                         failed; pts = exact numerators X1,Y1,.. of the  *)
+(*                         first nexact points, tops = top 20 bits (x then *)
+(*                         y) of each later point                          *)
+(*   ocols{k,pts}          k-mer CGR: numerators X,Y of every column       *)
+(*                                                                         *)
+(* The action only consumes the next line; the judgement is the invariant  *)
+(* EventOk on the line just consumed (TLC caches LET values in invariants, *)
+(* not in actions).                                                        *)
 (***************************************************************************)
-EXTENDS Nt, TraceLib
+EXTENDS CompOps, TraceLib, FiniteSets
 
 LetterByte == <<65, 67, 71, 84>>
 DecodeBytes(q) == [i \in 1..Len(q) |-> LetterByte[q[i] + 1]]
 
-\* canonical k-mers in increasing code order (k <= 8 here: Pow4 stays small)
-CanonList(kk) == SelectSeq([i \in 1..Pow4(kk) |-> Digits(i - 1, kk)], IsCanon)
-\* header of the composition vectors
-HeaderOf(kk) == LET cl == CanonList(kk) IN [p \in 1..Len(cl) |-> DecodeBytes(cl[p])]
+\* constants, evaluated once
+CanonLists == [kk \in 1..8 |-> CanonList(kk)]
+HeaderOf == [kk \in 1..8 |-> [p \in 1..Len(CanonLists[kk]) |-> DecodeBytes(CanonLists[kk][p])]]
+
+RcOk(e) == LET kk == e.k
+               dx == LowDigits(e.x, kk)
+           IN /\ HighZero(e.x, kk) /\ HighZero(e.rc, kk)
+              /\ LowDigits(e.rc, kk) = RC(dx)
+              /\ RC(LowDigits(e.rc, kk)) = dx
+              /\ e.txt = DecodeBytes(dx)
+
+\* to_acgt / numeric_to_kmer alone
+AcgtOk(e) == HighZero(e.x, e.k) /\ e.txt = DecodeBytes(LowDigits(e.x, e.k))
+
+HeaderOk(e) == e.k \in 1..8 /\ e.cols = HeaderOf[e.k]
+
+\* ---- oligo rows (C04, C12, C13)
+RowCols(row) == {row[2 * j - 1] : j \in 1..(Len(row) \div 2)}
+RowVal(row, p) == LET hits == {j \in 1..(Len(row) \div 2) : row[2 * j - 1] = p}
+                  IN IF hits = {} THEN 0 ELSE row[2 * (CHOOSE j \in hits : TRUE)]
+ORecOk(e, prev) ==
+  LET kk  == e.k
+      cl  == CanonLists[kk]
+      cw  == CanonWindows(Classes(e.bytes), kk)
+      tot == Len(cw)
+      row == e.row
+      kinds == {cw[i] : i \in 1..Len(cw)}                 \* canonical k-mers present
+      cols == RowCols(row)
+  IN /\ kk \in 1..8
+     /\ e.ncols = Len(cl)
+     /\ Len(row) % 2 = 0
+     /\ \A p \in cols : p \in 0..(Len(cl) - 1)
+     /\ Cardinality(cols) = Len(row) \div 2                \* no column listed twice
+     /\ e.norm \in {0, 1}
+     /\ IF e.norm = 0
+        THEN \* exactly the present k-mers, each with its number of occurrences
+             /\ {cl[p + 1] : p \in cols} = kinds
+             /\ \A p \in cols : RowVal(row, p) = Occ(cw, cl[p + 1])
+        ELSE \* every column correct to 6 decimals (absent columns read 0)
+             /\ \A p \in cols : NormOk(RowVal(row, p), Occ(cw, cl[p + 1]), tot)
+             /\ \A d \in kinds : \E p \in cols \cup {0 - 1} :
+                    IF p = 0 - 1 THEN NormOk(0, Occ(cw, d), tot) /\ \A q \in cols : cl[q + 1] # d
+                    ELSE cl[p + 1] = d
+     /\ e.same = 1 => row = prev.row
+
+\* ---- whole-sequence CGR (C11, C13)
+CgrOk(e) ==
+  LET cls == Classes(e.bytes)
+      n == Len(cls)
+      bad == \E i \in 1..n : cls[i] = Ambig
+  IN IF bad THEN e.err = 1 /\ e.npts = 0 /\ e.nexact = 0 /\ e.pts = <<>> /\ e.tops = <<>>
+     ELSE /\ e.err = 0 /\ e.npts = n
+          /\ e.nexact = (IF n < 29 THEN n ELSE 29)
+          /\ Len(e.pts) = 2 * e.nexact
+          /\ \A i \in 1..e.nexact : /\ e.pts[2 * i - 1] = Num(PathOf(cls, i, CornerX))
+                                    /\ e.pts[2 * i]     = Num(PathOf(cls, i, CornerY))
+          /\ Len(e.tops) = n - e.nexact
+          /\ \A t \in 1..Len(e.tops) :
+               LET i == e.nexact + t IN
+               /\ SubSeq(e.tops[t], 1, 20)  = SubSeq(PathOf(cls, i, CornerX), 1, 20)
+               /\ SubSeq(e.tops[t], 21, 40) = SubSeq(PathOf(cls, i, CornerY), 1, 20)
+
+\* ---- k-mer CGR columns (C12): end point of each canonical k-mer's text
+OColsOk(e) ==
+  LET cl == CanonLists[e.k] IN
+  /\ Len(e.pts) = 2 * Len(cl)
+  /\ \A p \in 1..Len(cl) : /\ e.pts[2 * p - 1] = Num(PathOf(cl[p], e.k, CornerX))
+                           /\ e.pts[2 * p]     = Num(PathOf(cl[p], e.k, CornerY))
+
+EventOk ==
+  l > 1 =>
+    LET e == Rec[l - 1] IN
+    CASE e.ev = "rc"     -> RcOk(e)
+      [] e.ev = "acgt"   -> AcgtOk(e)
+      [] e.ev = "header" -> HeaderOk(e)
+      [] e.ev = "orec"   -> ORecOk(e, IF l > 2 THEN Rec[l - 2] ELSE e)
+      [] e.ev = "cgr"    -> CgrOk(e)
+      [] e.ev = "ocols"  -> OColsOk(e)
+      [] e.ev = "batchlen" -> e.got = e.n          \* a batch call returns one result per argument
+      [] e.ev = "eof"    -> l - 1 = Len(Rec)
+      [] OTHER           -> FALSE
 
 TInit == TrackInit /\ l = 1
-
-TRc == /\ Is("rc")
-       /\ LET kk == Ev.k
-              dx == LowDigits(Ev.x, kk)
-          IN /\ HighZero(Ev.x, kk) /\ HighZero(Ev.rc, kk)
-             /\ LowDigits(Ev.rc, kk) = RC(dx)
-             /\ RC(LowDigits(Ev.rc, kk)) = dx
-             /\ Ev.txt = DecodeBytes(dx)
-       /\ Consume
-
-THeader == /\ Is("header")
-           /\ Ev.k \in 1..8
-           /\ Ev.cols = HeaderOf(Ev.k)
-           /\ Consume
-
-TEof == Is("eof") /\ Consume
-
-TNext == TRc \/ THeader \/ TEof
+TNext == l <= Len(Rec) /\ Consume
 TSpec == TInit /\ [][TNext]_l
 Post == Accepted
 =============================================================================
